@@ -90,3 +90,8 @@ LEVEL_TEXT = ("Lean 4 theorems, for every coverage predicate, score threshold an
 LEVEL_NOTE = ("Trusted: Lean kernel; model<->code tie is sampled (seeded differential run), not proved; the geometric coverage predicate is taken from the implementation "
               "(C08 covers it); floats compared as exact rationals, NaN/inf excluded.")
 TECHNIQUE = "Lean 4 proof (loop-to-walk refinement + induction) with differential correspondence check"
+
+SOURCE_TIE = "Source-level tie by proof (Tie/Nms, Props/C14s): nms() as regenerated from the source (whole function) equals the model's nms with covers = intersection/area > threshold; the theorems are restated for the generated function."
+LEVEL_TEXT = LEVEL_TEXT + " " + SOURCE_TIE
+TRUSTED_BASE = TRUSTED_BASE + ["translator/kernels.py + rustexpr.py (reader of the Rust subset, per-function tables) for the functions named in SOURCE_TIE; generated definitions are proof obligations (Tie modules) on every run"]
+TECHNIQUE = TECHNIQUE + "; model regenerated from the source by a translator for the functions of SOURCE_TIE, tied by proof"
